@@ -237,6 +237,7 @@ CanonClauses(e, G, R) ==
   IN
   \* C12: a one-to-one renaming onto 0..n-1, nothing lost, argument untouched
      (IF G.n = R.n THEN {} ELSE {"C12:atom-count-changed"})
+  \cup (IF Has(e.g, "labs") /\ e.g.labs # [i \in 1..R.n |-> i - 1] THEN {"C04:result-not-numbered-0..n-1"} ELSE {})
   \cup (IF traceable THEN {} ELSE {"C12:atoms-not-traceable(attributes-lost-or-atoms-merged)"})
   \cup (IF traceable /\ ~(\A a \in Atoms(G) : R.attr[sigma[a]] = G.attr[a]) THEN {"C12:atom-attributes-changed"} ELSE {})
   \cup (IF traceable /\ AG.ebag # R.ebag THEN {"C12:bonds-or-bond-attributes-changed"} ELSE {})
@@ -304,7 +305,7 @@ SerClauses(e, G) ==
   \cup (IF Has(e, "after") /\ GraphOf(e.after).mattr # GraphOf(e.before).mattr THEN {"C12:serialize-changed-atom-attributes"} ELSE {})
   \cup (IF Has(e, "after") /\ GraphOf(e.after).ebag # GraphOf(e.before).ebag THEN {"C12:serialize-changed-bonds"} ELSE {})
   \cup (IF Has(e, "after") /\ GraphOf(e.after).ord # GraphOf(e.before).ord THEN {"C12:serialize-changed-atom-set-or-order"} ELSE {})
-  \cup (IF G.n <= RLimit /\ ClassesDense(G.part) /\ ColourHomogeneous(G, G.part) /\ (\A a \in Atoms(G) : G.sym[a] \in SymSet)
+  \cup (IF G.n <= RLimit /\ ClassesDense(G.part) /\ ColourHomogeneous(G, G.part) /\ (\A a \in Atoms(G) : G.sym[a] \in SymSet /\ G.mass[a] < BigNum /\ G.rad[a] < BigNum)
           /\ SerializeMolecule(G) # s
           THEN {"R:string-differs-from-spec"} ELSE {})
 
@@ -315,6 +316,18 @@ Serialize(e) ==
      /\ strOf' = IF Known(strOf, c) THEN strOf ELSE strOf @@ (c :> e.ret)
      /\ sers' = sers \cup {<<c, e.ret, prov[e.arg].g>>}
   /\ UNCHANGED <<objs, cls, root, prov, canonOf, rootPart, strs, mols, results>>
+
+\* --- serialize_molecule on a graph that is not a result of canonicalize_molecule (a partitioned graph the library handed out,
+\* a canonical graph the user renumbered): the string need not be the molecule's identifier, so nothing enters the registries;
+\* the call must return (C15, recorded as "raised" otherwise) and leave its argument alone (C12)
+SerializeRaw(e) ==
+  /\ e.op = "serraw" /\ Known(objs, e.arg) /\ Has(e, "ret")
+  /\ viol' = viol
+       \cup (IF GraphOf(e.after).mattr # GraphOf(e.before).mattr THEN {"C12:serialize-changed-atom-attributes"} ELSE {})
+       \cup (IF GraphOf(e.after).ebag # GraphOf(e.before).ebag THEN {"C12:serialize-changed-bonds"} ELSE {})
+       \cup (IF GraphOf(e.after).ord # GraphOf(e.before).ord THEN {"C12:serialize-changed-atom-set-or-order"} ELSE {})
+       \cup (IF Denote(e.ret).acc THEN {} ELSE {"R:string-of-a-non-canonical-graph-is-not-a-sentence"})
+  /\ UNCHANGED <<objs, cls, root, prov, strOf, canonOf, rootPart, sers, strs, mols, results>>
 
 \* --- a library call ended with an exception where the properties demand a normal return (C15 and others)
 Raised(e) ==
@@ -409,7 +422,7 @@ PermuteClauses(e, G, R) ==
   LET traceable == TagsTraceable(G, R)
       sigma == IF traceable THEN SigmaByTag(G, R) ELSE [a \in Atoms(G) |-> a]
       complete == NumEdges(G) * 2 = G.n * (G.n - 1)
-  IN (IF G.n = R.n THEN {} ELSE {"C16:label-set-changed"})
+  IN (IF G.n = R.n /\ (Has(e.g, "labs") /\ Has(e.before, "labs") => e.g.labs = e.before.labs) THEN {} ELSE {"C16:label-set-changed"})
   \cup (IF traceable THEN {} ELSE {"C16:atoms-not-traceable(attributes-lost-or-atoms-merged)"})
   \cup (IF traceable /\ ~CarriesAll(Apply(G, sigma), [R EXCEPT !.part = Apply(G, sigma).part]) THEN {"C16:not-a-faithful-relabelled-copy"} ELSE {})
   \cup (IF traceable /\ Apply(G, sigma).part # R.part THEN {"C16:partition-attribute-not-carried"} ELSE {})
@@ -493,6 +506,9 @@ SameText(e) ==
              \cup (IF good THEN {} ELSE {"H:texts-do-not-state-the-same-molecule"})
              \cup (IF merge /\ Known(strOf, ca) /\ Known(strOf, cb) /\ strOf[ca] # strOf[cb]
                      THEN {e.pfx \o ":same-molecule-different-string"} ELSE {})
+             \* one of two renderings of one molecule is read, the other rejected (C06: headers, keywords, index values, line ends ...)
+             \cup (IF good /\ ElementKnown(A) /\ (Known(objs, e.a) # Known(objs, e.b))
+                     THEN {e.pfx \o ":one-rendering-is-read-the-other-rejected"} ELSE {})
              \* presence-sensitive comparison of what the reader returned for the two spellings (explicit defaults, C07)
              \cup (IF good /\ both /\ Has(e, "samegraph") /\ e.samegraph
                       /\ ~(objs[e.a].hasm = objs[e.b].hasm /\ objs[e.a].hasr = objs[e.b].hasr /\ objs[e.a].attr = objs[e.b].attr)
@@ -545,7 +561,7 @@ WriteText(e) ==
   /\ UNCHANGED <<objs, cls, root, prov, strOf, canonOf, rootPart, sers, strs, mols, results>>
 
 Step(e) == \/ Input(e) \/ Derive(e) \/ Mutate(e) \/ Touch(e) \/ SameMol(e) \/ Canonicalize(e) \/ Automorphism(e) \/ Serialize(e)
-           \/ Raised(e) \/ Completed(e) \/ Emitted(e) \/ Parse(e) \/ ReadText(e) \/ SameText(e) \/ DistinctText(e) \/ WriteText(e) \/ StringIn(e) \/ Respell(e) \/ Result(e) \/ Permute(e)
+           \/ Raised(e) \/ Completed(e) \/ Emitted(e) \/ Parse(e) \/ ReadText(e) \/ SameText(e) \/ DistinctText(e) \/ WriteText(e) \/ StringIn(e) \/ Respell(e) \/ Result(e) \/ Permute(e) \/ SerializeRaw(e)
 
 \* ------------------------------------------------------------------ the properties, as state predicates
 Clean(prefix) == \A c \in viol : SubSeq(c, 1, Len(prefix)) # prefix
